@@ -46,6 +46,9 @@ CLAIMED = {
     "C04": dict(level="model_checking", tech="TLA+ run-time semantics (Container.tla TaggedOrder/Decorate) + Merge.tla, explored by TLC; every configuration (split over 1-3 files) replayed on the compiled container",
                 text="Exhaustive over three tagged services x priority assignments (absent, negative, equal, large) x second-tag carry bits x eight decorator sequences x 1/2/3-file splits; compares !tagged slices, GetTaggedBy order, decorator chains with payload <tag, service, object> and declared arguments; TaggedSorted and SplitInvariant are checked by TLC on the model.",
                 note="Trusted: as C02."),
+    "C12": dict(level="exploration", tech="Pipeline.tla with a free environment as the protocol every execution must follow; node-kind confusions enumerated by TLC (MC_Confusion), stress inputs and seeded blind mutation run in-process with recover() and a watchdog; one trace per distinct execution signature validated by TLC",
+                text="25 000 (thorough 400 000) executions: every node of a complete base document replaced by each of 24 YAML node kinds (singly, and in pairs for a subset), deep nesting, very long names and patterns, complete dependency digraphs, odd directory entries (dangling / self-referencing symlinks, directories, NUL bytes, big files), byte- and token-level mutation of a corpus of valid and invalid configurations incl. the repository's own, arbitrary glob patterns and flags; a panic, a killed process or a watchdog hit is a violation; every distinct signature must be a behaviour of Pipeline (exit 0/1, count = list length, file contract).",
+                note="No coverage guidance (a different technique); this is exploration, not absence of panics. Trusted: the in-process driver's recover()/watchdog."),
     "C13": dict(level="model_checking", tech="TLA+ spec of the API surface (API.tla) + Container.tla for getter results, enumerated by TLC; verdict, reflected method set with signatures, names and the result of calling every generated method compared on the compiled container",
                 text="Exhaustive over getter (incl. every container method name, the embedded field, Must-prefixed, InContext-suffixed, duplicates) x type form x must_getter x default_must_getter x independent meta names x role of a second service; NoCollision is checked by TLC on the model.",
                 note="Trusted: as C02; reflection in the probe reads the method set of the generated type."),
@@ -61,6 +64,9 @@ CLAIMED = {
     "C19": dict(level="other", tech="recorded build/regenerate/install generations validated as a trace by TLC against SelfHost.tla (invariants Fixpoint, Functional)",
                 text="One input, nothing to enumerate: two (thorough: three) generations of build -> regenerate -> install on a scratch copy of the working tree, digests compared modulo the version comment line; the trace is accepted by TLC only if every regeneration equals the checked-in file.",
                 note="Trusted: the Go toolchain, sha256, the Makefile's self-compile patterns."),
+    "C20": dict(level="model_checking", tech="TLA+ model of the runtime's critical sections as used by generated code (ContainerConc.tla) model-checked over all interleavings of small instances; recorded concurrent runs of the real generated container (race detector on, events numbered under the per-entry lock) validated by TLC against Trace_Conc.tla",
+                text="Design: ConstructedOnce, EvaluatedOnce, ContextIsolation, SharedAgreed, MutualExclusion, NoDeadlock over every interleaving of 2-3 goroutines on a shared / contextual / non_shared chain with a parameter; a parameter cycle deadlocks (negative control). Code: model-enumerated graphs x scopes and hand-made configurations (multi-chunk patterns, env functions, derived contextual scope, tags, decorators, getters) x 4/16(/64) goroutines x repeated runs under -race; a race report or a rejected trace is a violation.",
+                note="Interleavings of the real program are sampled, not enumerated; the locking lives in the external runtime and is modelled, not verified."),
 }
 
 NOT_YET = "check not built yet in this round (planned in DESIGN.md section 6); will be claimed once its TLA+ family and harness exist"
